@@ -4,6 +4,7 @@
 package ssax
 
 import (
+	"os"
 	"fmt"
 	"go/constant"
 	"go/token"
@@ -185,23 +186,64 @@ func FeasibleEdges(p *ssa.Phi) []ssa.Value {
 	}
 	// which successor do all uses of p lie behind?
 	fn := b.Parent()
-	behind := -1
-	for si := 0; si < 2; si++ {
-		other := Edge{b, 1 - si}
-		n, all := 0, true
-		for _, u := range *refs {
-			if _, dbg := u.(*ssa.DebugRef); dbg || u.Block() == b {
-				continue
+	behindOK := [2]bool{true, true}
+	n := 0
+	for _, u := range *refs {
+		if _, dbg := u.(*ssa.DebugRef); dbg {
+			continue
+		}
+		if up, isPhi := u.(*ssa.Phi); isPhi {
+			// a phi uses the value only when control arrives over the corresponding predecessor
+			for i, e := range up.Edges {
+				if e != ssa.Value(p) || i >= len(up.Block().Preds) {
+					continue
+				}
+				n++
+				pb := up.Block().Preds[i]
+				if pb == b {
+					// used along the edge b -> up.Block() itself
+					for si := 0; si < 2 && si < len(b.Succs); si++ {
+						if b.Succs[si] != up.Block() || b.Succs[1-si] == up.Block() {
+							behindOK[si] = false
+						}
+					}
+					continue
+				}
+				if len(pb.Instrs) == 0 {
+					behindOK = [2]bool{}
+					continue
+				}
+				last := pb.Instrs[len(pb.Instrs)-1]
+				for si := 0; si < 2; si++ {
+					if ReachableAvoiding(fn, last, []Edge{{b, si}}, nil) {
+						behindOK[si] = false
+					}
+				}
 			}
-			n++
-			// reachable without passing edge si (i.e. possibly through the other one)?
+			continue
+		}
+		if u.Block() == b {
+			continue // the test itself / spills
+		}
+		n++
+		for si := 0; si < 2; si++ {
 			if ReachableAvoiding(fn, u, []Edge{{b, si}}, nil) {
-				all = false
+				behindOK[si] = false
 			}
 		}
-		_ = other
-		if n > 0 && all {
-			behind = si
+	}
+	behind := -1
+	if n > 0 && behindOK[0] != behindOK[1] {
+		if behindOK[0] {
+			behind = 0
+		} else {
+			behind = 1
+		}
+	}
+	if os.Getenv("DCVERIF_DEBUG_FE") != "" {
+		println("FE", fn.Name(), p.Comment, p.Type().String(), "block", b.Index, "behind", behind, "refs", len(*refs))
+		for _, u := range *refs {
+			println("   ref", u.String(), "in block", u.Block().Index)
 		}
 	}
 	if behind < 0 {
@@ -592,8 +634,55 @@ func Conds(fn *ssa.Function) []Cond {
 			continue
 		}
 		out = append(out, DecomposeCond(iff))
+		// a short-circuit expression evaluated in an expanded helper (`return a == x || b == y`) ends in a block that
+		// merges the constant of the short-circuit arm with the last comparison and branches on the merge: expose that
+		// comparison as a condition of this branch (exact on the edge the constant arm cannot take)
+		if c, ok := mergedComparison(b, iff); ok {
+			out = append(out, c)
+		}
 	}
 	return out
+}
+
+// mergedComparison: b branches on a boolean phi all of whose alternatives are constants except one comparison.
+func mergedComparison(b *ssa.BasicBlock, iff *ssa.If) (Cond, bool) {
+	bp, neg := boolPhiTest(b)
+	if bp == nil {
+		return Cond{}, false
+	}
+	var cmp *ssa.BinOp
+	unknown := 0
+	for _, ev := range bp.Edges {
+		if c, ok := rawStrip(ev).(*ssa.Const); ok && c.Value != nil && c.Value.Kind() == constant.Bool {
+			continue
+		}
+		unknown++
+		v, n2 := rawStrip(ev), false
+		for {
+			if u, ok := v.(*ssa.UnOp); ok && u.Op == token.NOT {
+				v, n2 = u.X, !n2
+				continue
+			}
+			break
+		}
+		if bo, ok := v.(*ssa.BinOp); ok {
+			switch bo.Op {
+			case token.EQL, token.NEQ, token.LSS, token.LEQ, token.GTR, token.GEQ:
+				cmp = bo
+				if n2 {
+					neg = !neg
+				}
+			}
+		}
+	}
+	if unknown != 1 || cmp == nil {
+		return Cond{}, false
+	}
+	c := Cond{If: iff, Op: cmp.Op, X: cmp.X, Y: cmp.Y}
+	if neg {
+		c.Op = NegateOp(c.Op)
+	}
+	return c, true
 }
 
 func DecomposeCond(iff *ssa.If) Cond {
@@ -1073,6 +1162,47 @@ func errPhiTest(b *ssa.BasicBlock) (*ssa.Phi, *ssa.BinOp) {
 	return nil, nil
 }
 
+// Leaf is one alternative of a (possibly merged) value together with the instruction after which that alternative is
+// chosen: the value itself at its use, or the end of the predecessor block of a phi.
+type Leaf struct {
+	V  ssa.Value
+	At ssa.Instruction
+}
+
+// Leaves expands v, used at instruction `at`, through phis.
+func Leaves(v ssa.Value, at ssa.Instruction) []Leaf {
+	var out []Leaf
+	seen := map[*ssa.Phi]bool{}
+	var walk func(v ssa.Value, at ssa.Instruction, depth int)
+	walk = func(v ssa.Value, at ssa.Instruction, depth int) {
+		p, ok := Resolve(v).(*ssa.Phi)
+		if !ok || seen[p] || depth > 6 {
+			out = append(out, Leaf{Resolve(v), at})
+			return
+		}
+		seen[p] = true
+		fe := FeasibleEdges(p)
+		for i, e := range p.Edges {
+			feasible := false
+			for _, f := range fe {
+				if f == e {
+					feasible = true
+				}
+			}
+			if !feasible || i >= len(p.Block().Preds) {
+				continue
+			}
+			pb := p.Block().Preds[i]
+			if len(pb.Instrs) == 0 {
+				continue
+			}
+			walk(e, pb.Instrs[len(pb.Instrs)-1], depth+1)
+		}
+	}
+	walk(v, at, 0)
+	return out
+}
+
 // Returns lists the Return instructions of fn.
 func Returns(fn *ssa.Function) []*ssa.Return {
 	var out []*ssa.Return
@@ -1115,13 +1245,96 @@ func ConstString(v ssa.Value) (string, bool) {
 }
 
 // ConstInt returns the integer constant behind v.
-func ConstInt(v ssa.Value) (int64, bool) {
-	k, ok := ConstOf(v)
-	if !ok || k.Kind() != constant.Int {
+func ConstInt(v ssa.Value) (int64, bool) { return constInt(v, 0) }
+
+func constInt(v ssa.Value, depth int) (int64, bool) {
+	if k, ok := ConstOf(v); ok {
+		if k.Kind() != constant.Int {
+			return 0, false
+		}
+		n, exact := constant.Int64Val(k)
+		return n, exact
+	}
+	if depth > 4 {
 		return 0, false
 	}
-	n, exact := constant.Int64Val(k)
-	return n, exact
+	switch x := Resolve(v).(type) {
+	case *ssa.BinOp:
+		// arithmetic over statically known integers (go/ssa folds only literal constants)
+		a, ok1 := constInt(x.X, depth+1)
+		b, ok2 := constInt(x.Y, depth+1)
+		if !ok1 || !ok2 {
+			return 0, false
+		}
+		switch x.Op {
+		case token.ADD:
+			return a + b, true
+		case token.SUB:
+			return a - b, true
+		case token.MUL:
+			return a * b, true
+		}
+	case *ssa.Convert:
+		if b, ok := x.Type().Underlying().(*types.Basic); ok && b.Info()&types.IsInteger != 0 {
+			return constInt(x.X, depth+1)
+		}
+	case *ssa.Call:
+		// len / copy over slices of arrays with constant bounds
+		if bi, ok := x.Call.Value.(*ssa.Builtin); ok {
+			switch bi.Name() {
+			case "len":
+				return staticLen(x.Call.Args[0], depth+1)
+			case "copy":
+				a, ok1 := staticLen(x.Call.Args[0], depth+1)
+				b, ok2 := staticLen(x.Call.Args[1], depth+1)
+				if ok1 && ok2 {
+					if a < b {
+						return a, true
+					}
+					return b, true
+				}
+			}
+		}
+	}
+	return 0, false
+}
+
+// staticLen: length of an array, a pointer to an array, or a slice of one with statically known bounds.
+func staticLen(v ssa.Value, depth int) (int64, bool) {
+	t := v.Type()
+	if pt, ok := t.Underlying().(*types.Pointer); ok {
+		t = pt.Elem()
+	}
+	if at, ok := t.Underlying().(*types.Array); ok {
+		return at.Len(), true
+	}
+	sl, ok := v.(*ssa.Slice)
+	if !ok || depth > 6 {
+		return 0, false
+	}
+	n, ok := staticLen(sl.X, depth+1)
+	if !ok {
+		return 0, false
+	}
+	lo, hi := int64(0), n
+	if sl.Low != nil {
+		k, ok := constInt(sl.Low, depth+1)
+		if !ok {
+			return 0, false
+		}
+		lo = k
+	}
+	if sl.High != nil {
+		k, ok := constInt(sl.High, depth+1)
+		if !ok {
+			return 0, false
+		}
+		hi = k
+	}
+	if lo < 0 || hi < lo || hi > n {
+		return 0, false
+	}
+	return hi - lo, true
 }
 
 // ArrayElems returns the values stored into the elements of a local array allocation
